@@ -22,8 +22,8 @@
                                             every invalidated grant that is gone, at most 10 entries per name (the two
                                             oldest are merged)                                 [rebuild_gc, calc_history]
          auth.DeleteRole (soft)           : history entry for every current channel, invalidated at the delete sequence;
-         auth.NewRoleNoChannels           : a re-created role inherits the deleted role's history for the DEFAULT
-                                            collection only                                             [x_del_role, x_set_role]
+         auth.NewRoleNoChannels           : a re-created role inherits the deleted role's history (every collection
+                                            since 3cadf88: recreate_keeps_named_history)         [x_del_role, x_set_role]
 
    (3) the API of a loaded user object (Effective.v) evaluated on the decorated state.             [view_of, XAsk]
 
@@ -291,11 +291,15 @@ Definition x_edit_user (xs : xstate) (u : N) (chans roles_ : option (list N)) (s
 Definition x_set_user (xs : xstate) (u : N) (chans roles_ : option (list N)) (s : N) : xstate :=
   x_edit_user (x_rebuild_user xs u) u chans roles_ s.
 
-Definition x_edit_role (xs : xstate) (r : N) (chans : option (list N)) (s : N) : xstate :=
+(* auth.NewRole / NewRoleNoChannels on a soft-deleted role of the same name carry over the channel history of EVERY
+   collection (repair 3cadf88); false = the code before the repair, which kept the default collection's history only *)
+Definition recreate_keeps_named_history : bool := true.
+
+Definition x_edit_role_with (keep : bool) (xs : xstate) (r : N) (chans : option (list N)) (s : N) : xstate :=
   let st := xb xs in
   let live_ := match roles st r with Some rr => negb (r_del rr) | None => false end in
   let kept_hist := match roles st r with
-                   | Some rr => if r_del rr && xdef xs then g_hist (xr xs r) else []
+                   | Some rr => if r_del rr && (xdef xs || keep) then g_hist (xr xs r) else []
                    | None => []
                    end in
   let fresh := mkR false [] (Some (compute_chans st (PR r) [])) in
@@ -309,6 +313,7 @@ Definition x_edit_role (xs : xstate) (r : N) (chans : option (list N)) (s : N) :
   let g1 := match chans with Some c => if chg then edit_gc g0 c s else g0 | None => g0 end in
   mkX (set_roles st (upd (roles st) r (Some rr1))) (xdef xs) (if negb live_ || chg then s else xclock xs)
       (xreq xs) (xdacc xs) (xdrol xs) (xu xs) (upd (xr xs) r g1).
+Definition x_edit_role : xstate -> N -> option (list N) -> N -> xstate := x_edit_role_with recreate_keeps_named_history.
 Definition x_set_role (xs : xstate) (r : N) (chans : option (list N)) (s : N) : xstate :=
   x_edit_role (x_rebuild_role xs r) r chans s.
 
